@@ -24,6 +24,7 @@ func init() {
 			"(P05-makeresult-guard) MakeResult returns a result only on the errs==nil edge of re-parsing exactly the text it returns; " +
 			"(P05-write-result) WriteToFile reports failure exactly when the OS write failed; (P05-propagate) every caller up to the command's Run returns the error; " +
 			"(P05-exit) exit status 0 only on the nil edge of the command error, all error codes are >= 1 and reach os.Exit. " +
+			"(P05-after-write) after the write the command can only succeed: it returns nil, and nothing it still runs (printing the record, the warnings) reaches a panic that C06 leaves open — on the pinned tree one such panic IS reachable (duration.Plus overflow in the more-than-24-hours warning, a consequence of the recorded defect D4), which the check reports as a known finding of this property: the statement is proven for every run in which the sum of a record's entries does not overflow. " +
 			"Not covered: atomicity of os.WriteFile itself and I/O faults; that the parser used for validation is the specification's (C01/C07).",
 		rules: []ruleFn{ruleP05Writers, ruleP05GuardedWrite, ruleP05ApplyAbort, ruleP05MakeResultGuard, ruleP05WriteResult, ruleP05Propagate, ruleP05Exit, ruleP05ToInt},
 		trusted: []string{
@@ -639,6 +640,36 @@ func ruleP05ApplyAbort(p *Prog, r *Report) {
 		}
 	}
 	mkCalls := callsTo(f, mk)
+	// the tail of ApplyReconciler extracted into a helper that runs the steps and forwards
+	// MakeResult's two results: the helper call stands for MakeResult in ApplyReconciler
+	var inner ssa.CallInstruction
+	var recArg ssa.Value
+	if len(mkCalls) == 0 {
+		if vcs := virtualCallsTo(f, mk); len(vcs) == 1 && len(vcs[0].chain) == 1 {
+			in, hc := vcs[0].call, vcs[0].chain[0]
+			h := in.Parent()
+			fwd, okFwd := 0, h.Signature.Results().Len() == 2 && hc.Parent() == f
+			for _, ret := range returnsOf(h) {
+				if len(ret.Results) != 2 {
+					okFwd = false
+					continue
+				}
+				if a, b := resultOf(in, 0), resultOf(in, 1); a != nil && b != nil && sameValue(retResult(ret, 0), a) && sameValue(retResult(ret, 1), b) {
+					fwd++
+					continue
+				}
+				if !isNilConst(retResult(ret, 0)) || p.nilnessAt(ret.Block(), retResult(ret, 1), 0) != nnNonNil {
+					okFwd = false
+				}
+			}
+			if par, isPar := in.Common().Args[0].(*ssa.Parameter); okFwd && fwd == 1 && isPar {
+				if i := paramIndex(h, par); i >= 0 && i < len(hc.Common().Args) {
+					inner, recArg = in, hc.Common().Args[i]
+					mkCalls = []ssa.CallInstruction{hc}
+				}
+			}
+		}
+	}
 	if len(steps) == 0 || len(mkCalls) != 1 {
 		r.undecided(rule, "anchors", p.pos(f.Pos()), "expected >=1 dynamic Reconcile step call and exactly one MakeResult call (found %d, %d)", len(steps), len(mkCalls))
 		return
@@ -697,6 +728,13 @@ func ruleP05ApplyAbort(p *Prog, r *Report) {
 			vcall{call: hc, chain: chain}.run(func() {
 				ok2 = len(st.Common().Args) == 1 && sameValue(st.Common().Args[0], m.Common().Args[0])
 			})
+			if inner != nil && hc == m {
+				// steps and MakeResult in the same helper
+				ok2 = len(st.Common().Args) == 1 && st.Common().Args[0] == inner.Common().Args[0]
+				r.check(!reachableFrom(inner.Block(), nil)[st.Block()], rule, key+":before-makeresult", p.instrPos(st), "step is not reachable after MakeResult", "a step can run after MakeResult was computed")
+				r.check(ok2, rule, key+":same-reconciler", p.instrPos(st), "step and MakeResult operate on the same reconciler", "MakeResult is not called on the reconciler the steps modified")
+				continue
+			}
 			r.check(!afterMk[hc.Block()], rule, key+":before-makeresult", p.instrPos(st), "step is not reachable after MakeResult", "a step can run after MakeResult was computed")
 			r.check(ok2, rule, key+":same-reconciler", p.instrPos(st), "step and MakeResult operate on the same reconciler", "MakeResult is not called on the reconciler the steps modified")
 			continue
@@ -739,6 +777,9 @@ func ruleP05ApplyAbort(p *Prog, r *Report) {
 	}
 	// nil reconciler -> error before any step
 	rec := m.Common().Args[0]
+	if inner != nil {
+		rec = recArg
+	}
 	if nonNilB, nilB, ok := errorEdge(f, rec); ok {
 		_ = nonNilB
 		msg := rejectComplete(nilB, failRet)
